@@ -32,10 +32,13 @@ func NewStack(via string) (outer *fifo.Group, inner *fifo.Group) {
 	hbhm := header.NewHopByHopModifier()
 	outer.AddRequestModifier(hbhm)
 	outer.AddRequestModifier(header.NewForwardedModifier())
-	outer.AddRequestModifier(header.NewBadFramingModifier())
 
+	// The Via modifier runs before the framing check: the group stops at the
+	// first error, and a request flagged for bad framing must still be stamped
+	// and checked for loops.
 	vm := header.NewViaModifier(via)
 	outer.AddRequestModifier(vm)
+	outer.AddRequestModifier(header.NewBadFramingModifier())
 
 	inner = fifo.NewGroup()
 	outer.AddRequestModifier(inner)
